@@ -56,6 +56,9 @@ pub struct CaseOut {
     pub sample: Option<Value>,
     /// the oracle could not decide this case (counted, not a verdict)
     pub undecided: u64,
+    /// digest of everything the real code returned in this case; compared
+    /// between two different processes for a sample of cases (determinism)
+    pub digest: Option<u64>,
 }
 
 impl CaseOut {
@@ -79,6 +82,11 @@ impl CaseOut {
     }
     pub fn observe_str(&mut self, s: &str) {
         self.obs.push(hash_str(s));
+    }
+    /// Fold a result of the real code into the case digest.
+    pub fn digest_str(&mut self, s: &str) {
+        let h = hash_str(s);
+        self.digest = Some(crate::rng::mix(self.digest.unwrap_or(0x1234), h));
     }
     pub fn violate(&mut self, sig: impl Into<String>, what: impl Into<String>, witness: Value) {
         self.violations.push(Violation {
@@ -139,6 +147,10 @@ fn verif_root() -> String {
 
 // ---------------------------------------------------------------------------
 // Worker
+
+/// Case indices below this are re-run in a second, separate process and the
+/// digests of what the real code returned are compared.
+pub const DIGEST_SAMPLE: u64 = 400;
 
 static CUR_CASE: AtomicU64 = AtomicU64::new(u64::MAX);
 static CUR_START_MS: AtomicU64 = AtomicU64::new(0);
@@ -211,6 +223,12 @@ pub fn worker_main(
                     );
                 }
                 ncases += 1;
+                if let Some(d) = out.digest {
+                    if idx < DIGEST_SAMPLE {
+                        let mut o = stdout.lock();
+                        let _ = writeln!(o, "D {} {:016x}", idx, d);
+                    }
+                }
                 agg.evals += out.evals;
                 agg.undecided += out.undecided;
                 for (k, v) in out.counters {
@@ -322,6 +340,7 @@ struct Collected {
     violations: Vec<(u64, Violation)>,
     samples: Vec<Value>,
     nviol_total: u64,
+    digests: BTreeMap<u64, u64>,
 }
 
 enum WorkerEnd {
@@ -430,6 +449,14 @@ fn parse_worker_output(
                     }
                 }
             }
+            "D " => {
+                let mut it = rest.split_whitespace();
+                if let (Some(i), Some(h)) = (it.next(), it.next()) {
+                    if let (Ok(i), Ok(h)) = (i.parse::<u64>(), u64::from_str_radix(h, 16)) {
+                        col.lock().unwrap().digests.insert(i, h);
+                    }
+                }
+            }
             "E " => {
                 let mut c = col.lock().unwrap();
                 c.harness_errors += 1;
@@ -489,6 +516,42 @@ fn parse_worker_output(
         Some(i) => (WorkerEnd::Died(i, desc), errtxt),
         None => (WorkerEnd::Died(u64::MAX, desc), errtxt),
     }
+}
+
+/// Like parse_worker_output, but kills the worker once it announces a case index >= `stop_at`.
+fn parse_worker_output_until(
+    child: &mut std::process::Child,
+    col: &Mutex<Collected>,
+    stop_at: u64,
+) -> (WorkerEnd, String) {
+    let stdout = child.stdout.take().unwrap();
+    let r = BufReader::new(stdout);
+    for line in r.lines() {
+        let Ok(line) = line else { break };
+        if line.len() < 2 {
+            continue;
+        }
+        let (tag, rest) = line.split_at(2);
+        match tag {
+            "B " => {
+                if rest.trim().parse::<u64>().map(|i| i >= stop_at).unwrap_or(false) {
+                    break;
+                }
+            }
+            "D " => {
+                let mut it = rest.split_whitespace();
+                if let (Some(i), Some(h)) = (it.next(), it.next()) {
+                    if let (Ok(i), Ok(h)) = (i.parse::<u64>(), u64::from_str_radix(h, 16)) {
+                        col.lock().unwrap().digests.insert(i, h);
+                    }
+                }
+            }
+            _ => {}
+        }
+    }
+    let _ = child.kill();
+    let _ = child.wait();
+    (WorkerEnd::Finished, String::new())
 }
 
 /// Re-run one case alone with a larger watchdog budget.  Returns what happened.
@@ -623,6 +686,35 @@ pub fn supervisor_main(mon: &'static Monitor, tier: Tier) -> i32 {
     let mut col = std::mem::take(&mut *col.lock().unwrap());
     let incidents = std::mem::take(&mut *incidents.lock().unwrap());
     let mut inconclusive: Vec<String> = Vec::new();
+
+    // Determinism across processes: re-run the digest sample in one fresh process
+    // (different HashMap seeds, different allocation history) and compare.
+    if !col.digests.is_empty() {
+        let col2 = Mutex::new(Collected::default());
+        let mut child = spawn_worker(&exe, mon, tier, seed, 0, 1, None);
+        // shard 0 of 1 walks all indices from 0; stop it once past the sample
+        let _ = &mut child;
+        let (_end, _err) = parse_worker_output_until(&mut child, &col2, DIGEST_SAMPLE);
+        let second = col2.into_inner().unwrap().digests;
+        let mut compared = 0u64;
+        for (idx, d1) in &col.digests {
+            if let Some(d2) = second.get(idx) {
+                compared += 1;
+                if d1 != d2 {
+                    col.nviol_total += 1;
+                    col.violations.push((
+                        *idx,
+                        Violation {
+                            sig: "nondeterministic-across-processes".into(),
+                            what: format!("case {} gave different results in two different processes (same input, configuration and widths)", idx),
+                            witness: json!({"idx": idx, "seed": seed, "digest_first": format!("{:016x}", d1), "digest_second": format!("{:016x}", d2)}),
+                        },
+                    ));
+                }
+            }
+        }
+        col.counters.insert("cross_process_cases_compared".into(), compared);
+    }
 
     // Examine incidents in isolation (at most a handful; the rest are counted).
     let mut examined = 0;
